@@ -570,6 +570,21 @@ def _make_xinterp():
             kf = self.world.extra_builtins.get("odict_keyfn")
             if kf is not None and not n.keys:
                 return ODictV(lambda obj, kf=kf, it=self: kf(it, [obj], {}))
+            if any(k is None for k in n.keys):
+                # {**a, "k": v, **b}: dictionary unpacking of concrete-key dicts, later entries win (additive: refused before)
+                d = {}
+                for k, v in zip(n.keys, n.values):
+                    if k is None:
+                        part = self.eval(v, env)
+                        if not isinstance(part, dict):
+                            raise Unsupp("** unpacking of a non-dict inside a dict literal")
+                        d.update(part)
+                    else:
+                        kk = self.eval(k, env)
+                        if not isinstance(kk, (str, int)):
+                            raise Unsupp("dict literal with symbolic key")
+                        d[kk] = self.eval(v, env)
+                return d
             return super().e_Dict(n, env)
 
         def iter_concrete(self, v):
@@ -666,4 +681,5 @@ def use_xinterp(fc):
     """mark every case of a FnContract to be executed by the extended interpreter"""
     for c in fc.cases:
         c.interp_cls = XInterp()
+        c.standin_on_unsupported = True      # out-of-reach edits are still searched natively with the executable contract
     return fc
